@@ -77,6 +77,9 @@ def run_all(prop, shapes, args, mutant=None, stop_on_ce=False):
 
 def do_check(prop, args, seed):
     t0 = time.time()
+    tv_n, tv_bad = core.translator_validation()
+    for name, text, r1, r2 in tv_bad[:5]:
+        print("TRANSLATOR MISMATCH %s on %r: rewritten=%s original=%s" % (name, text, str(r1)[:300], str(r2)[:300]), file=sys.stderr)
     shapes = prop.shapes(args.tier)
     rnd = random.Random(seed)
     order = list(range(len(shapes)))
@@ -138,7 +141,8 @@ def do_check(prop, args, seed):
 
     wall = time.time() - t0
     if not args.no_evidence and not args.mutant and not args.limit:
-        write_evidence(prop, args.tier, seed, results, violations, known_hits, inconclusive, mismatches, nonrepro, wall)
+        write_evidence(prop, args.tier, seed, results, violations, known_hits, inconclusive, mismatches, nonrepro, wall,
+                       tv=(tv_n, len(tv_bad)))
     tot_paths = sum(r['paths'] for r in results)
     print("property=%s tier=%s shapes=%d paths=%d queries=%d validated=%d solver_s=%.1f wall=%.1fs violations=%d known=%d inconclusive=%d" % (
         prop.ID, args.tier, len(results), tot_paths, sum(r['queries'] for r in results),
@@ -147,12 +151,12 @@ def do_check(prop, args, seed):
         len(inconclusive) + len(mismatches) + len(nonrepro)))
     if violations:
         return core.EXIT_VIOLATION
-    if inconclusive or mismatches or nonrepro:
+    if inconclusive or mismatches or nonrepro or tv_bad:
         return core.EXIT_INCONCLUSIVE
     return core.EXIT_OK
 
 
-def write_evidence(prop, tier, seed, results, violations, known_hits, inconclusive, mismatches, nonrepro, wall):
+def write_evidence(prop, tier, seed, results, violations, known_hits, inconclusive, mismatches, nonrepro, wall, tv=(0, 0)):
     cov = set()
     for r in results:
         cov.update(tuple(x) for x in r.get('cov', []))
@@ -193,6 +197,7 @@ def write_evidence(prop, tier, seed, results, violations, known_hits, inconclusi
                 loader.REPO, __import__('z3').get_version_string()),
             known_findings={k: len(v) for k, v in known_hits.items()},
             extra=_sum_extra(results),
+            translator_validation=dict(runs_on_repo_test_strings=tv[0], disagreements=tv[1]),
             inconclusive=len(inconclusive) + len(mismatches) + len(nonrepro),
         ),
         assumptions=prop.ASSUMPTIONS,
